@@ -43,7 +43,12 @@ Definition is_nil {A} (l : list A) : bool := match l with [] => true | _ => fals
    (LeadingContentPreProcessing && (!EvaluateTogether || firstFile)).
    With pre-processing the first document carries the leading content, and a
    file with leading content but no document yields one blank node carrying
-   it; without, yaml.v3 sees the lines itself. *)
+   it; without, yaml.v3 sees the lines itself.
+   Restrictions (kept out of the generators): without pre-processing a file
+   that consists of a document start line only is read by yaml.v3 as one null
+   document (the model says: no document); processReadStream peeks 4 bytes,
+   so a last leading line shorter than 4 bytes at the very end of a file is
+   not taken as leading content. *)
 Definition decode (pre : bool) (fl : file) : list doc :=
   match f_bodies fl with
   | [] => if pre && negb (is_nil (f_lead fl)) && negb (f_bad fl) then [mkDoc (f_lead fl) blank] else []
